@@ -46,6 +46,11 @@ func (p *Profile) ServerPort() int {
 func (p *Profile) ListOfUsernames() []string {
 	var Usernames []string
 
+	// a profile without an Operators block has no users
+	if p.Config.Operators == nil {
+		return Usernames
+	}
+
 	for _, user := range p.Config.Operators.Users {
 		Usernames = append(Usernames, user.Name)
 	}
